@@ -1,3 +1,524 @@
-//! C12 bounded native checks (not written yet)
-use super::Report;
-pub fn run() -> Option<Report> { None }
+//! C12 bounded: connectivity results are exact partitions, terminate, and do not depend on the hash-iteration order.
+//! Every group runs on a worker thread under a progress watchdog (a case normally takes microseconds; no progress for
+//! STALL_MS is reported as non-termination together with the input that was being evaluated; a panic of the real code
+//! is reported with its input as well).  All oracles are brute force (union-find / counting) and use no hash containers.
+//!
+//! (a) `common::indices::chained_indices` on every list of <= 4 pairs over the vertex ids 0..5 (self pairs and repeated
+//!     pairs included);
+//! (b) `raster3::clusters_from_sparse` on every subset of a 2x2x2 block, of a 3x3x1 slab and of a 2x2x3 block (blocks
+//!     placed across the origin so that negative coordinates occur), each evaluated twice (fresh hash state);
+//! (c) `Mesh::{calc_edges, get_patches, get_patch_boundary_points}` on every ORDERED list of <= 3 faces over 5 vertices
+//!     that is consistently wound (no directed edge twice => no edge in more than two faces) and has no vertex-only
+//!     contact (the faces around every vertex form one edge-connected fan), on a family of larger hand-built meshes
+//!     of the same class (grids with holes, closed solids, several components, with rotated / reversed face storage),
+//!     and on the outputs of `Mesh::create_box` / `Mesh::create_cylinder`; every face list with an edge in three
+//!     faces must be refused by `calc_edges`.  Inputs outside that class (vertex-only contacts, inconsistent
+//!     winding) are NOT enumerated: the unchanged code does not terminate / is order dependent there (DESIGN D7, D8).
+use super::{close, Report};
+use crate::geom3::{Mesh, Point3};
+use std::collections::HashSet;
+use std::sync::atomic::{AtomicU64, Ordering};
+use std::sync::{Arc, Mutex};
+
+const STALL_MS: u64 = 6000;
+
+// ------------------------------------------------------------------------------------------------ watchdog
+struct Progress {
+    tick: AtomicU64,
+    cur: Mutex<Vec<i64>>,
+}
+impl Progress {
+    /// announce the input that is evaluated next (flattened numbers)
+    fn at(&self, input: &[i64]) {
+        let mut c = self.cur.lock().unwrap();
+        c.clear();
+        c.extend_from_slice(input);
+        drop(c);
+        self.tick.fetch_add(1, Ordering::Relaxed);
+    }
+}
+
+/// run `work` on its own thread; merge its report; a stall or a panic becomes a failing clause naming the current input
+fn guarded<F>(r: &mut Report, group: &'static str, encoding: &'static str, work: F)
+where
+    F: FnOnce(&mut Report, &Progress) + Send + 'static,
+{
+    let p = Arc::new(Progress { tick: AtomicU64::new(0), cur: Mutex::new(Vec::new()) });
+    let p2 = p.clone();
+    let h = std::thread::Builder::new()
+        .name(format!("c12-{}", group))
+        .spawn(move || {
+            let mut sub = Report::new("");
+            work(&mut sub, &p2);
+            sub
+        })
+        .expect("spawn");
+    let mut last = p.tick.load(Ordering::Relaxed);
+    let mut idle_ms = 0u64;
+    while !h.is_finished() {
+        std::thread::sleep(std::time::Duration::from_millis(20));
+        let t = p.tick.load(Ordering::Relaxed);
+        if t != last {
+            last = t;
+            idle_ms = 0;
+        } else {
+            idle_ms += 20;
+        }
+        if idle_ms >= STALL_MS {
+            let cur = p.cur.lock().map(|c| c.clone()).unwrap_or_default();
+            r.case();
+            r.check(false, &format!("{}: the computation finishes on every input (watchdog: one input made no progress for {} s)", group, STALL_MS / 1000), || {
+                format!("{} {:?}", encoding, cur)
+            });
+            return; // the stuck thread is abandoned; the process exits after the report is printed
+        }
+    }
+    match h.join() {
+        Ok(sub) => {
+            if std::env::var("C12_BOUNDED_VERBOSE").is_ok() { eprintln!("c12 bounded group {}: cases={} checks={} failures={}", group, sub.cases, sub.checks, sub.failures.len()); }
+            r.cases += sub.cases;
+            r.checks += sub.checks;
+            for f in sub.failures {
+                if r.failures.len() < 40 {
+                    r.failures.push(f);
+                }
+            }
+        }
+        Err(e) => {
+            let msg = e.downcast_ref::<String>().cloned().or_else(|| e.downcast_ref::<&str>().map(|s| s.to_string())).unwrap_or_default();
+            let cur = p.cur.lock().map(|c| c.clone()).unwrap_or_else(|e| e.into_inner().clone());
+            r.case();
+            r.check(false, &format!("{}: the computation finishes without a panic on every input", group), || format!("{} {:?} panic: {}", encoding, cur, msg));
+        }
+    }
+}
+
+// ------------------------------------------------------------------------------------------------ brute-force helpers
+struct Dsu(Vec<usize>);
+impl Dsu {
+    fn new(n: usize) -> Self { Dsu((0..n).collect()) }
+    fn find(&mut self, mut x: usize) -> usize { while self.0[x] != x { self.0[x] = self.0[self.0[x]]; x = self.0[x]; } x }
+    fn union(&mut self, a: usize, b: usize) { let (a, b) = (self.find(a), self.find(b)); if a != b { self.0[a.max(b)] = a.min(b); } }
+    /// the partition of 0..n as sorted groups, groups sorted
+    fn groups(&mut self) -> Vec<Vec<usize>> {
+        let n = self.0.len();
+        let mut g: Vec<Vec<usize>> = vec![Vec::new(); n];
+        for i in 0..n { let f = self.find(i); g[f].push(i); }
+        let mut g: Vec<Vec<usize>> = g.into_iter().filter(|v| !v.is_empty()).collect();
+        g.sort();
+        g
+    }
+}
+fn canon<T: Ord + Clone>(parts: &[Vec<T>]) -> Vec<Vec<T>> {
+    let mut p: Vec<Vec<T>> = parts.iter().map(|v| { let mut v = v.clone(); v.sort(); v }).collect();
+    p.sort();
+    p
+}
+fn ue(a: u32, b: u32) -> (u32, u32) { if a <= b { (a, b) } else { (b, a) } }
+
+// ------------------------------------------------------------------------------------------------ (a) index chaining
+const NV: usize = 5;
+fn check_chain(r: &mut Report, pairs: &[[u32; 2]]) {
+    r.case();
+    let chains = crate::common::indices::chained_indices(pairs);
+    let desc = || format!("chained_indices({:?}) = {:?}", pairs, chains);
+    let mut cin = [[0i32; NV]; NV];
+    let (mut indeg, mut outdeg) = ([0i32; NV], [0i32; NV]);
+    for p in pairs { cin[p[0] as usize][p[1] as usize] += 1; outdeg[p[0] as usize] += 1; indeg[p[1] as usize] += 1; }
+    let mut cout = [[0i32; NV]; NV];
+    let mut shape = true;
+    for c in chains.iter() {
+        if c.len() < 2 || c.iter().any(|&v| v as usize >= NV) { shape = false; continue; }
+        for w in c.windows(2) { cout[w[0] as usize][w[1] as usize] += 1; }
+    }
+    r.check(shape, "chaining: every chain has at least two entries, all of them input vertex ids", desc);
+    let mut link_ok = true;
+    let mut once = true;
+    for a in 0..NV { for b in 0..NV {
+        if cout[a][b] > 0 && cin[a][b] == 0 { link_ok = false; }
+        if cout[a][b] != cin[a][b] { once = false; }
+    } }
+    r.check(link_ok, "chaining: consecutive chain entries are an input pair with its orientation kept", desc);
+    r.check(once, "chaining: every input pair is consumed exactly once", desc);
+    // maximal under the unique-candidate rule: a chain that ends at v and a DIFFERENT chain that starts at v can only
+    // coexist when v is ambiguous (more than one input pair starts at v, or more than one ends at v)
+    let mut maximal = true;
+    for (i, a) in chains.iter().enumerate() { for (j, b) in chains.iter().enumerate() {
+        if i == j || a.len() < 2 || b.len() < 2 { continue; }
+        let v = *a.last().unwrap();
+        if v == b[0] && (v as usize) < NV && indeg[v as usize] == 1 && outdeg[v as usize] == 1 { maximal = false; }
+    } }
+    r.check(maximal, "chaining: chains are maximal (two chains meet end-to-start only at an index where the continuation is not unique)", desc);
+}
+
+fn run_chains(r: &mut Report, p: &Progress) {
+    let all: Vec<[u32; 2]> = (0..(NV * NV) as u32).map(|k| [k / NV as u32, k % NV as u32]).collect();
+    let mut buf: Vec<i64> = Vec::new();
+    for len in 0..=4usize {
+        let mut idx = vec![0usize; len];
+        loop {
+            let pairs: Vec<[u32; 2]> = idx.iter().map(|&i| all[i]).collect();
+            buf.clear();
+            for q in pairs.iter() { buf.push(q[0] as i64); buf.push(q[1] as i64); }
+            p.at(&buf);
+            check_chain(r, &pairs);
+            let mut k = 0;
+            while k < len { idx[k] += 1; if idx[k] < all.len() { break; } idx[k] = 0; k += 1; }
+            if k == len { break; }
+        }
+    }
+}
+
+// ------------------------------------------------------------------------------------------------ (b) voxel clustering
+type Vox = (i32, i32, i32);
+fn adjacent26(a: &Vox, b: &Vox) -> bool {
+    a != b && (a.0 - b.0).abs() <= 1 && (a.1 - b.1).abs() <= 1 && (a.2 - b.2).abs() <= 1
+}
+fn check_voxels(r: &mut Report, vox: &[Vox]) {
+    r.case();
+    let mut d = Dsu::new(vox.len());
+    for i in 0..vox.len() { for j in 0..i { if adjacent26(&vox[i], &vox[j]) { d.union(i, j); } } }
+    let expect: Vec<Vec<Vox>> = canon(&d.groups().into_iter().map(|g| g.into_iter().map(|i| vox[i]).collect()).collect::<Vec<Vec<Vox>>>());
+    let mut first: Option<Vec<Vec<Vox>>> = None;
+    for _run in 0..2 {
+        let set: HashSet<Vox> = vox.iter().copied().collect(); // fresh RandomState per set
+        let got = crate::raster3::clusters_from_sparse(set);
+        let desc = || format!("clusters_from_sparse({:?}) = {:?}", vox, got);
+        let mut flat: Vec<Vox> = got.iter().flatten().copied().collect();
+        flat.sort();
+        let mut inp: Vec<Vox> = vox.to_vec();
+        inp.sort();
+        r.check(flat == inp && got.iter().all(|c| !c.is_empty()), "voxels: the clusters partition the input set (every voxel in exactly one non-empty cluster)", desc);
+        let cg = canon(&got);
+        r.check(cg == expect, "voxels: two voxels share a cluster exactly when they are connected through 26-adjacency", desc);
+        match &first {
+            None => first = Some(cg),
+            Some(f) => r.check(*f == cg, "voxels: same clusters as sets on a repeated run (hash order)", desc),
+        }
+    }
+}
+fn run_voxels(r: &mut Report, p: &Progress) {
+    let blocks: [(Vox, Vox); 3] = [((-1, -1, -1), (2, 2, 2)), ((-1, -1, 0), (3, 3, 1)), ((0, -1, -2), (2, 2, 3))];
+    let mut buf: Vec<i64> = Vec::new();
+    for (o, s) in blocks.iter() {
+        let mut cells: Vec<Vox> = Vec::new();
+        for x in 0..s.0 { for y in 0..s.1 { for z in 0..s.2 { cells.push((o.0 + x, o.1 + y, o.2 + z)); } } }
+        for mask in 0u32..(1u32 << cells.len()) {
+            let vox: Vec<Vox> = (0..cells.len()).filter(|k| mask >> k & 1 == 1).map(|k| cells[k]).collect();
+            buf.clear();
+            for v in vox.iter() { buf.extend_from_slice(&[v.0 as i64, v.1 as i64, v.2 as i64]); }
+            p.at(&buf);
+            check_voxels(r, &vox);
+        }
+    }
+    // the i32 extremes of the coordinate range are not enumerated (neighbour arithmetic overflows there: precondition)
+}
+
+// ------------------------------------------------------------------------------------------------ (c) meshes
+fn dir_edges(f: &[u32; 3]) -> [(u32, u32); 3] { [(f[0], f[1]), (f[1], f[2]), (f[2], f[0])] }
+
+/// consistently wound (no directed edge twice), proper triangles, and no vertex-only contact
+fn in_class(faces: &[[u32; 3]]) -> bool {
+    let mut de: Vec<(u32, u32)> = Vec::new();
+    for f in faces {
+        if f[0] == f[1] || f[1] == f[2] || f[2] == f[0] { return false; }
+        for e in dir_edges(f) { if de.contains(&e) { return false; } de.push(e); }
+    }
+    let nv = faces.iter().flatten().copied().max().map(|m| m + 1).unwrap_or(0);
+    for v in 0..nv {
+        let inc: Vec<usize> = (0..faces.len()).filter(|&i| faces[i].contains(&v)).collect();
+        if inc.len() < 2 { continue; }
+        let mut d = Dsu::new(inc.len());
+        for a in 0..inc.len() { for b in 0..a {
+            // share an (undirected) edge that contains v
+            let (fa, fb) = (&faces[inc[a]], &faces[inc[b]]);
+            if fa.iter().any(|&w| w != v && fb.contains(&w)) { d.union(a, b); }
+        } }
+        if d.groups().len() != 1 { return false; }
+    }
+    true
+}
+fn has_edge_in_three_faces(faces: &[[u32; 3]]) -> bool {
+    let mut all: Vec<(u32, u32)> = Vec::new();
+    for f in faces { for e in dir_edges(f) { all.push(ue(e.0, e.1)); } }
+    all.iter().any(|e| all.iter().filter(|x| *x == e).count() > 2)
+}
+
+fn vid(verts: &[Point3], p: &Point3) -> Option<u32> { verts.iter().position(|q| q == p).map(|i| i as u32) }
+
+/// closed simple cycles whose consecutive (cyclic) vertex pairs are exactly the boundary edges, each once
+fn check_cycles(r: &mut Report, loops: &[Vec<u32>], boundary: &[(u32, u32)], what_cycle: &str, what_once: &str, desc: &dyn Fn() -> String) -> Vec<Vec<(u32, u32)>> {
+    let mut seen: Vec<(u32, u32)> = Vec::new();
+    let mut cyc_ok = true;
+    let mut per_loop: Vec<Vec<(u32, u32)>> = Vec::new();
+    for l in loops {
+        let n = l.len();
+        if n < 3 { cyc_ok = false; }
+        for i in 0..n { for j in 0..i { if l[i] == l[j] { cyc_ok = false; } } }
+        let mut es = Vec::new();
+        for i in 0..n {
+            let e = ue(l[i], l[(i + 1) % n]);
+            if !boundary.contains(&e) { cyc_ok = false; }
+            es.push(e);
+            seen.push(e);
+        }
+        per_loop.push(es);
+    }
+    r.check(cyc_ok, what_cycle, desc);
+    let mut s = seen.clone();
+    s.sort();
+    let mut b = boundary.to_vec();
+    b.sort();
+    r.check(s == b, what_once, desc);
+    canon(&per_loop)
+}
+
+fn check_mesh(r: &mut Report, verts: &[Point3], faces: &[[u32; 3]], label: &str) {
+    r.case();
+    let nf = faces.len();
+    let mesh = Mesh::new(verts.to_vec(), faces.to_vec(), false);
+    let desc = || format!("{} faces {:?}", label, faces);
+    r.check(mesh.faces() == faces && mesh.vertices() == verts, "mesh: Mesh::new keeps the face list and the vertex list", desc);
+    // ---- oracle
+    let mut und: Vec<(u32, u32)> = Vec::new();
+    let mut all: Vec<(u32, u32)> = Vec::new();
+    for f in faces { for e in dir_edges(f) { let k = ue(e.0, e.1); all.push(k); if !und.contains(&k) { und.push(k); } } }
+    und.sort();
+    let boundary: Vec<(u32, u32)> = und.iter().copied().filter(|e| all.iter().filter(|x| *x == e).count() == 1).collect();
+    let mut d = Dsu::new(nf);
+    for a in 0..nf { for b in 0..a {
+        if dir_edges(&faces[a]).iter().any(|e| dir_edges(&faces[b]).iter().any(|g| ue(e.0, e.1) == ue(g.0, g.1))) { d.union(a, b); }
+    } }
+    let comp = d.groups();
+    // ---- edge table, face -> edges, boundary loops (twice: fresh hash state each time)
+    let mut first_edges: Option<(Vec<(u32, u32)>, Vec<Vec<(u32, u32)>>)> = None;
+    for _run in 0..2 {
+        match mesh.calc_edges() {
+            Err(_) => r.check(false, "edges: a mesh with no edge in more than two faces has an edge table", desc),
+            Ok(me) => {
+                let d2 = || format!("{} edges {:?} face_edges {:?} boundary_loops {:?}", desc(), me.edges, me.face_edges, me.boundary_loops);
+                let mut listed: Vec<(u32, u32)> = me.edges.iter().map(|e| ue(e[0], e[1])).collect();
+                listed.sort();
+                r.check(listed == und, "edges: the edge table lists each undirected edge exactly once", d2);
+                let mut len_ok = me.edge_lengths.len() == me.edges.len();
+                if len_ok { for (e, l) in me.edges.iter().zip(me.edge_lengths.iter()) {
+                    let (a, b) = (verts[e[0] as usize], verts[e[1] as usize]);
+                    let t = ((a.x - b.x).powi(2) + (a.y - b.y).powi(2) + (a.z - b.z).powi(2)).sqrt();
+                    if !close(*l, t) { len_ok = false; }
+                } }
+                r.check(len_ok, "edges: every listed edge carries its length", d2);
+                let mut fe_ok = me.face_edges.len() == nf;
+                if fe_ok { for (f, fe) in faces.iter().zip(me.face_edges.iter()) {
+                    let mut want: Vec<(u32, u32)> = dir_edges(f).iter().map(|e| ue(e.0, e.1)).collect();
+                    want.sort();
+                    let mut got: Vec<(u32, u32)> = Vec::new();
+                    for &k in fe.iter() { match me.edges.get(k as usize) { Some(e) => got.push(ue(e[0], e[1])), None => fe_ok = false } }
+                    got.sort();
+                    if got != want { fe_ok = false; }
+                } }
+                r.check(fe_ok, "edges: every face is mapped to its three edges", d2);
+                let cl = check_cycles(r, &me.boundary_loops, &boundary, "edges: every boundary loop is a closed vertex cycle along boundary edges",
+                    "edges: the boundary loops together contain every boundary edge exactly once", &d2);
+                match &first_edges {
+                    None => first_edges = Some((listed, cl)),
+                    Some((l0, c0)) => r.check(*l0 == listed && *c0 == cl, "edges: same edge table and loops as sets on a repeated run (hash order)", d2),
+                }
+            }
+        }
+    }
+    // ---- patches (three times)
+    let mut first_p: Option<Vec<Vec<usize>>> = None;
+    for _run in 0..3 {
+        let patches = mesh.get_patches();
+        let d3 = || format!("{} get_patches {:?}", desc(), patches);
+        let mut flat: Vec<usize> = patches.iter().flatten().copied().collect();
+        flat.sort();
+        r.check(flat == (0..nf).collect::<Vec<_>>() && patches.iter().all(|q| !q.is_empty()), "patches: every face is in exactly one patch", d3);
+        let cp = canon(&patches);
+        r.check(cp == comp, "patches: two faces share a patch exactly when they are connected through shared edges", d3);
+        match &first_p {
+            None => first_p = Some(cp),
+            Some(f) => r.check(*f == cp, "patches: same patches as sets on a repeated run (hash order)", d3),
+        }
+    }
+    // ---- patch boundaries as point cycles
+    match mesh.get_patch_boundary_points() {
+        Err(_) => r.check(false, "patch boundaries: computed for a mesh with no edge in more than two faces", desc),
+        Ok(bp) => {
+            let mut ids: Vec<Vec<u32>> = Vec::new();
+            let mut known = true;
+            for l in bp.iter() { let mut v = Vec::new(); for q in l { match vid(verts, q) { Some(i) => v.push(i), None => known = false } } ids.push(v); }
+            let d4 = || format!("{} get_patch_boundary_points (as vertex ids) {:?}", desc(), ids);
+            r.check(known, "patch boundaries: every returned point is a mesh vertex", d4);
+            check_cycles(r, &ids, &boundary, "patch boundaries: every boundary is a closed vertex cycle along boundary edges",
+                "patch boundaries: together they contain every boundary edge exactly once", &d4);
+        }
+    }
+}
+
+fn base_vertices() -> Vec<Point3> {
+    vec![Point3::new(0.0, 0.0, 0.0), Point3::new(1.0, 0.0, 0.0), Point3::new(0.0, 2.0, 0.0), Point3::new(0.0, 0.0, 3.0), Point3::new(2.0, 3.0, 5.0)]
+}
+
+fn run_small_meshes(r: &mut Report, p: &Progress) {
+    let verts = base_vertices();
+    let mut tri: Vec<[u32; 3]> = Vec::new();
+    for a in 0..5u32 { for b in 0..5u32 { for c in 0..5u32 { if a != b && b != c && a != c { tri.push([a, b, c]); } } } }
+    let mut buf: Vec<i64> = Vec::new();
+    for len in 1..=3usize {
+        let mut idx = vec![0usize; len];
+        loop {
+            let faces: Vec<[u32; 3]> = idx.iter().map(|&i| tri[i]).collect();
+            let member = in_class(&faces);
+            let refused = !member && has_edge_in_three_faces(&faces);
+            if member || refused {
+                buf.clear();
+                for f in faces.iter() { buf.extend_from_slice(&[f[0] as i64, f[1] as i64, f[2] as i64]); }
+                p.at(&buf);
+            }
+            if member { check_mesh(r, &verts, &faces, "Mesh::new(5 fixed vertices)"); }
+            if refused {
+                r.case();
+                let mesh = Mesh::new(verts.clone(), faces.clone(), false);
+                r.check(mesh.calc_edges().is_err(), "edges: a mesh with an edge in more than two faces is refused (Err)", || format!("faces {:?}", faces));
+            }
+            let mut k = 0;
+            while k < len { idx[k] += 1; if idx[k] < tri.len() { break; } idx[k] = 0; k += 1; }
+            if k == len { break; }
+        }
+    }
+}
+
+/// (nx x ny) grid of quads, each split into two consistently wound triangles; quads listed in `holes` are left out
+fn grid(nx: u32, ny: u32, holes: &[(u32, u32)], z: f64, vbase: u32) -> (Vec<Point3>, Vec<[u32; 3]>) {
+    let mut v = Vec::new();
+    for j in 0..=ny { for i in 0..=nx { v.push(Point3::new(i as f64 + 0.125 * j as f64, j as f64 * 1.5, z + 0.25 * (i * j) as f64)); } }
+    let id = |i: u32, j: u32| vbase + j * (nx + 1) + i;
+    let mut f = Vec::new();
+    for j in 0..ny { for i in 0..nx {
+        if holes.contains(&(i, j)) { continue; }
+        f.push([id(i, j), id(i + 1, j), id(i + 1, j + 1)]);
+        f.push([id(i, j), id(i + 1, j + 1), id(i, j + 1)]);
+    } }
+    (v, f)
+}
+/// other storage of the same surface: face order kept / reversed / rotated by half, vertex triple of face k rotated by (k + variant) % 3
+fn restore(faces: &[[u32; 3]], variant: usize) -> Vec<[u32; 3]> {
+    let n = faces.len();
+    (0..n).map(|k| {
+        let src = match variant % 3 { 0 => k, 1 => n - 1 - k, _ => (k + n / 2) % n };
+        let f = faces[src];
+        let s = (k + variant) % 3;
+        [f[s], f[(s + 1) % 3], f[(s + 2) % 3]]
+    }).collect()
+}
+
+fn run_built_meshes(r: &mut Report, p: &Progress) {
+    let mut fam: Vec<(String, Vec<Point3>, Vec<[u32; 3]>)> = Vec::new();
+    let (v, f) = grid(3, 3, &[], 0.0, 0); fam.push(("3x3 grid".into(), v, f));
+    let (v, f) = grid(3, 3, &[(1, 1)], 0.0, 0); fam.push(("3x3 grid with the centre quad removed".into(), v, f));
+    let (v, f) = grid(5, 3, &[(1, 1), (3, 1)], 0.0, 0); fam.push(("5x3 grid with two holes".into(), v, f));
+    let (v, f) = grid(4, 1, &[(2, 0)], 0.0, 0); fam.push(("4x1 strip cut into two components".into(), v, f));
+    // a grid in which one triangle of a quad is missing (triangular notch / three-vertex hole)
+    let (v, mut f) = grid(3, 3, &[], 0.0, 0); f.remove(8); fam.push(("3x3 grid with one triangle removed".into(), v, f));
+    // closed solids: tetrahedron, octahedron, and both together as two components
+    let tv = vec![Point3::new(0.0, 0.0, 0.0), Point3::new(2.0, 0.0, 0.0), Point3::new(0.0, 3.0, 0.0), Point3::new(0.0, 0.0, 5.0)];
+    let tf = vec![[0u32, 2, 1], [0, 1, 3], [1, 2, 3], [2, 0, 3]];
+    fam.push(("tetrahedron".into(), tv.clone(), tf.clone()));
+    let ov = vec![Point3::new(1.0, 0.0, 0.0), Point3::new(-1.5, 0.0, 0.0), Point3::new(0.0, 2.0, 0.0), Point3::new(0.0, -2.5, 0.0), Point3::new(0.0, 0.0, 3.0), Point3::new(0.0, 0.0, -3.5)];
+    let of = vec![[0u32, 2, 4], [2, 1, 4], [1, 3, 4], [3, 0, 4], [2, 0, 5], [1, 2, 5], [3, 1, 5], [0, 3, 5]];
+    fam.push(("octahedron".into(), ov.clone(), of.clone()));
+    let mut bv = tv.clone(); bv.extend(ov.iter().map(|q| Point3::new(q.x + 10.0, q.y, q.z)));
+    let mut bf = tf.clone(); bf.extend(of.iter().map(|f| [f[0] + 4, f[1] + 4, f[2] + 4]));
+    fam.push(("tetrahedron + octahedron (two components)".into(), bv, bf));
+    // tetrahedron with one face removed (three-vertex boundary loop) next to a separate grid (four-or-more-vertex loop)
+    let (gv, gf) = grid(2, 2, &[], 7.0, 4);
+    let mut mv = tv.clone(); mv.extend(gv);
+    let mut mf: Vec<[u32; 3]> = tf[1..].to_vec(); mf.extend(gf);
+    fam.push(("open tetrahedron + 2x2 grid".into(), mv, mf));
+    // fan of triangles around a vertex (disk) and the same fan with the closing edge stored last in both neighbours
+    let fv: Vec<Point3> = vec![Point3::new(0.0, 0.0, 0.0), Point3::new(2.0, 0.0, 0.0), Point3::new(1.0, 2.0, 0.5), Point3::new(-1.5, 1.0, 0.0), Point3::new(-1.0, -2.0, 0.25), Point3::new(1.5, -1.5, 0.0)];
+    fam.push(("open fan".into(), fv.clone(), vec![[0, 1, 2], [0, 2, 3], [0, 3, 4], [0, 4, 5]]));
+    fam.push(("closed fan (disk)".into(), fv.clone(), vec![[0, 1, 2], [0, 2, 3], [0, 3, 4], [0, 4, 5], [0, 5, 1]]));
+    let mut buf: Vec<i64> = Vec::new();
+    for (name, v, f) in fam.iter() {
+        for variant in 0..6usize {
+            let fs = restore(f, variant);
+            if !in_class(&fs) { r.case(); r.check(false, "internal: hand-built mesh is in the stated class", || format!("{} {:?}", name, fs)); continue; }
+            buf.clear();
+            for t in fs.iter() { buf.extend_from_slice(&[t[0] as i64, t[1] as i64, t[2] as i64]); }
+            p.at(&buf);
+            check_mesh(r, v, &fs, &format!("{} (storage variant {})", name, variant));
+        }
+    }
+}
+
+fn check_generated(r: &mut Report, mesh: &Mesh, label: &str, closed: bool, centre: &dyn Fn(&Point3) -> Point3) {
+    r.case();
+    let faces: Vec<[u32; 3]> = mesh.faces().to_vec();
+    let verts: Vec<Point3> = mesh.vertices().to_vec();
+    let desc = || format!("{} faces {:?}", label, faces);
+    let mut de: Vec<(u32, u32)> = Vec::new();
+    let mut wound = faces.iter().all(|f| f.iter().all(|&i| (i as usize) < verts.len()));
+    for f in faces.iter() { for e in dir_edges(f) { if de.contains(&e) || e.0 == e.1 { wound = false; } de.push(e); } }
+    r.check(wound, "generators: consistently wound (every directed edge occurs at most once, indices inside the vertex list)", desc);
+    if closed {
+        r.check(de.iter().all(|e| de.contains(&(e.1, e.0))), "generators: the box is closed (every undirected edge twice, once in each direction)", desc);
+    }
+    // outward normals: the library's face normal, and the normal of the stored winding, both point away from the centre / axis
+    let mut out_ok = wound;
+    let mut lib_ok = true;
+    match mesh.get_face_normals() {
+        Err(_) => lib_ok = false,
+        Ok(ns) => {
+            if ns.len() != faces.len() { lib_ok = false; }
+            for (f, n) in faces.iter().zip(ns.iter()) {
+                if !wound { break; }
+                let (a, b, c) = (verts[f[0] as usize], verts[f[1] as usize], verts[f[2] as usize]);
+                let g = Point3::new((a.x + b.x + c.x) / 3.0, (a.y + b.y + c.y) / 3.0, (a.z + b.z + c.z) / 3.0);
+                let o = g - centre(&g);
+                let w = (b - a).cross(&(c - a));
+                if !(w.dot(&o) > 1e-9) { out_ok = false; }
+                if !(n.dot(&o) > 1e-9) || !(n.dot(&w) > 0.0) || !close(n.norm(), 1.0) { lib_ok = false; }
+            }
+        }
+    }
+    r.check(out_ok, "generators: the stored winding of every face gives an outward normal", desc);
+    r.check(lib_ok, "generators: get_face_normals returns one outward unit normal per face", desc);
+}
+
+fn run_generators(r: &mut Report, p: &Progress) {
+    let mut k = 0i64;
+    for (w, h, d) in [(1.0, 2.0, 3.0), (2.0, 2.0, 2.0), (0.5, 4.0, 1.0), (3.0, 0.25, 8.0)] {
+        k += 1; p.at(&[0, k]);
+        let m = Mesh::create_box(w, h, d, false);
+        let label = format!("create_box({}, {}, {})", w, h, d);
+        let c = Point3::new(w / 2.0, h / 2.0, d / 2.0);
+        check_generated(r, &m, &label, true, &|_g| c);
+        r.check(m.faces().len() == 12 && m.vertices().len() == 8, "generators: a box has 8 vertices and 12 faces", || label.clone());
+        if in_class(m.faces()) { check_mesh(r, &m.vertices().to_vec(), &m.faces().to_vec(), &label); }
+    }
+    for steps in 3..=16usize { for (rad, h) in [(1.0, 1.0), (2.5, 3.0)] {
+        k += 1; p.at(&[1, steps as i64, k]);
+        let m = Mesh::create_cylinder(rad, h, steps);
+        let label = format!("create_cylinder({}, {}, {})", rad, h, steps);
+        check_generated(r, &m, &label, false, &|g| Point3::new(0.0, 0.0, g.z));
+        r.check(m.faces().len() == 2 * steps && m.vertices().len() == 2 * steps, "generators: a cylinder wall has 2*steps vertices and 2*steps faces", || label.clone());
+        if in_class(m.faces()) {
+            check_mesh(r, &m.vertices().to_vec(), &m.faces().to_vec(), &label);
+            // an open tube: one patch, two rim loops of `steps` vertices
+            let loops = m.calc_edges().map(|e| e.boundary_loops.iter().map(|l| l.len()).collect::<Vec<_>>()).unwrap_or_default();
+            r.check(loops == vec![steps, steps] && m.get_patches().len() == 1, "generators: the cylinder wall is one patch with two rim loops of `steps` vertices", || format!("{} loops {:?}", label, loops));
+        }
+    } }
+}
+
+pub fn run() -> Option<Report> {
+    let mut r = Report::new("chained_indices: every list of <= 4 pairs over vertex ids 0..5 (406901 lists); clusters_from_sparse: every subset of a 2x2x2 block, a 3x3x1 slab and a 2x2x3 block of voxels (4864 sets, each twice); Mesh::calc_edges / get_patches / get_patch_boundary_points: every ordered list of <= 3 faces over 5 vertices that is consistently wound and free of vertex-only contacts, 11 larger hand-built meshes of that class in 6 storage variants each, create_box (4 sizes) and create_cylinder (steps 3..=16, 2 sizes), repeated 2-3 times per mesh for hash order; every <= 3 face list with an edge in three faces must be refused; each group under a progress watchdog (6 s per input). Vertex-only contacts and inconsistent winding are excluded (D7, D8)");
+    guarded(&mut r, "chaining", "pairs (flattened)", run_chains);
+    guarded(&mut r, "voxels", "voxels (flattened x,y,z)", run_voxels);
+    guarded(&mut r, "mesh", "faces (flattened)", run_small_meshes);
+    guarded(&mut r, "mesh", "faces (flattened)", run_built_meshes);
+    guarded(&mut r, "generators", "generator case", run_generators);
+    Some(r)
+}
